@@ -34,3 +34,11 @@ package managers
 //@   ensures[at-most-one-sync] G.notifSyncs <= old(G.notifSyncs) + 1
 //@   modifies *, G:notifSyncs
 
+
+// notificationSubscribeFunc (the MQTT callback): EVERY message that arrives is handed to the notification loop — also
+// an undecodable one. Its body builds a protobuf message value (array-typed internals), which the engine does not
+// execute; what is decided is structural: no return without an unconditional, blocking send of the function itself.
+//@ func (*NotifyManager).notificationSubscribeFunc
+//@   props C18
+//@   structural-only builds a protobuf message value with array-typed internals
+//@   always-sends
